@@ -1,5 +1,7 @@
 """C16 correspondence: State / IdentityEnsembleArray layout, identity map, feedback, neuron-level access."""
 
+import warnings
+
 import numpy as np
 
 from harness import common as c
@@ -181,6 +183,41 @@ def run(rep, tier, rng):
                               {"case": {"d": d, "sub": sub, "form": form, "x": x.tolist()}, "observed": np.asarray(o[1]).tolist(),
                                "expected": (mult * x).tolist(), "python": snippet})
 
+    # ---- call history: a second add_output of the same name applies the function passed in THAT call (or is refused) -------
+    for d, sub in [(4, 4), (1, 1), (3, 3), (4, 2), (6, 3)] + ([] if quick else [(16, 16), (8, 4), (9, 1)]):
+        x = np.array([rng.randint(1, 4) / 4.0 for _ in range(d)])
+
+        def twice():
+            with nengo.Network(seed=1) as net:
+                net.config[nengo.Ensemble].neuron_type = nengo.Direct()
+                ea5 = IdentityEnsembleArray(npd, d, sub)
+                nengo.Connection(nengo.Node(x), ea5.input, synapse=None)
+                first = ea5.add_output("fn_out", lambda v: v * 2.0)
+                try:
+                    second = ea5.add_output("fn_out", lambda v: v * -4.0)
+                except ValidationError:
+                    return None                      # refusing the reused name is fine
+                p1, p2 = nengo.Probe(first, synapse=None), nengo.Probe(second, synapse=None)
+            with nengo.Simulator(net, progress_bar=False) as sim:
+                sim.run(0.003)
+            return sim.data[p1][-1], sim.data[p2][-1]
+        with warnings.catch_warnings():
+            warnings.simplefilter("ignore")
+            o = c.outcome(twice)
+        rep.case(("add_output-twice", d, sub))
+        rep.count("add_output-same-name-twice")
+        if o[0] != "ok":
+            rep.violation(f"IdentityEnsembleArray({npd}, {d}, {sub}): adding a second output under a used name raised {o[0]}: {str(o[1])[:80]}", {"case": {"d": d, "sub": sub}})
+        elif o[1] is not None and not (np.allclose(o[1][0], 2.0 * x, atol=1e-9) and np.allclose(o[1][1], -4.0 * x, atol=1e-9)):
+            rep.violation(f"IdentityEnsembleArray({npd}, {d}, {sub}): an output added under an already used name does not compute the function passed in that call",
+                          {"case": {"d": d, "sub": sub, "x": x.tolist()}, "observed": [np.asarray(o[1][0]).tolist(), np.asarray(o[1][1]).tolist()],
+                           "expected": [(2.0 * x).tolist(), (-4.0 * x).tolist()],
+                           "python": "import numpy as np, nengo\nfrom nengo_spa.networks import IdentityEnsembleArray\n"
+                                     f"x = np.array({x.tolist()!r})\nwith nengo.Network(seed=1) as net:\n    net.config[nengo.Ensemble].neuron_type = nengo.Direct()\n"
+                                     f"    ea = IdentityEnsembleArray(3, {d}, {sub}); nengo.Connection(nengo.Node(x), ea.input, synapse=None)\n"
+                                     "    ea.add_output('fn_out', lambda v: v * 2.0); second = ea.add_output('fn_out', lambda v: v * -4.0)\n    p = nengo.Probe(second, synapse=None)\n"
+                                     "with nengo.Simulator(net, progress_bar=False) as sim:\n    sim.run(0.003)\nassert np.allclose(sim.data[p][-1], -4.0 * x), sim.data[p][-1]\n"})
+
     # ---- rejection of non-divisible dimensionalities ----------------------------------------------
     for d in range(1, 13 if quick else 33):
         for sub in range(1, d + 2):
@@ -193,6 +230,26 @@ def run(rep, tier, rng):
                         acc = False
                 add(f"check_state_accepts {d} {sub} {c.b(acc)}", {"op": "state-accepts", "d": d, "sub": sub, "represent_cc_identity": mode},
                     ("accepts", d, sub, mode))
+                # the split given through the network configuration instead of the keyword
+                with spa.Network() as cnet:
+                    cnet.config[spa.State].subdimensions = sub
+                    try:
+                        stc = spa.State(d, represent_cc_identity=mode)
+                        acc_c = True
+                        n_ens = len(list(stc.state_ensembles.all_ensembles))
+                    except ValidationError:
+                        acc_c, n_ens = False, None
+                add(f"check_state_accepts {d} {sub} {c.b(acc_c)}", {"op": "state-accepts", "d": d, "sub": sub, "represent_cc_identity": mode, "via": "config[spa.State].subdimensions"},
+                    ("accepts-config", d, sub, mode))
+                if acc_c and d % sub == 0:
+                    want_n = d // sub + (1 if (mode and sub > 1) else 0)
+                    rep.case(("config-split", d, sub, mode))
+                    rep.count("configured-split-is-used")
+                    if n_ens != want_n:
+                        rep.violation(f"State({d}) with config[spa.State].subdimensions = {sub} (represent_cc_identity={mode}) is split into {n_ens} ensembles, expected {want_n}",
+                                      {"case": {"d": d, "sub": sub, "mode": mode},
+                                       "python": f"import nengo_spa as spa\nwith spa.Network() as net:\n    net.config[spa.State].subdimensions = {sub}\n"
+                                                 f"    s = spa.State({d}, represent_cc_identity={mode})\nassert len(list(s.state_ensembles.all_ensembles)) == {want_n}\n"})
 
     verdicts = c.coq_eval("C16", "cases", IMPORTS, exprs, shard=400)
     structural = [m for ok, m in zip(verdicts, meta) if not ok]
@@ -323,8 +380,11 @@ def run(rep, tier, rng):
         if m["op"] == "state-accepts":
             rep.violation(f"State({m['d']}, subdimensions={m['sub']}, represent_cc_identity={m.get('represent_cc_identity')}) is accepted / rejected contrary to "
                           "'dimensions must be divisible by subdimensions'",
-                          {"case": m, "python": f"import nengo_spa as spa\nwith spa.Network():\n    spa.State({m['d']}, subdimensions={m['sub']}, "
-                                                f"represent_cc_identity={m.get('represent_cc_identity')})\nassert {m['d'] % m['sub'] == 0}, 'accepted a split that does not divide'\n"})
+                          {"case": m, "python": (f"import nengo_spa as spa\nwith spa.Network() as net:\n    net.config[spa.State].subdimensions = {m['sub']}\n"
+                                                 f"    spa.State({m['d']}, represent_cc_identity={m.get('represent_cc_identity')})\n" if m.get("via") else
+                                                 f"import nengo_spa as spa\nwith spa.Network():\n    spa.State({m['d']}, subdimensions={m['sub']}, "
+                                                 f"represent_cc_identity={m.get('represent_cc_identity')})\n")
+                           + f"assert {m['d'] % m['sub'] == 0}, 'accepted a split that does not divide'\n"})
             continue
         rep.violation(f"{m['op']} of (d={m['d']}, sub={m['sub']}) differs from the partition [0,1) [1,sub) then sub-sized chunks "
                       "(correspondence Tie/IdEnsTie.v with Model/IdEnsArray.v)",
